@@ -1012,7 +1012,9 @@ func (fr *Frame) builtin(site ssa.Instruction, b *ssa.Builtin, c *ssa.CallCommon
 		cc := vc.comp(st, "chclosed", "(Array Int Bool)")
 		notClosed := mkAnd(mkNot(mkEq(args[0], leaf("0"))), mkNot(mkSelect(cc, args[0])))
 		pos := fr.fn.Prog.Fset.Position(site.Pos())
-		vc.oblige("safety", "safety:close@"+shortFn(fr.fn), []string{"C16"}, st.guard, notClosed, pos, "close of nil or closed channel")
+		if !(fr.mode != nil && fr.mode.Disc) {
+			vc.oblige("safety", "safety:close@"+shortFn(fr.fn), []string{"C16"}, st.guard, notClosed, pos, "close of nil or closed channel")
+		}
 		vc.assume(st.guard, notClosed)
 		vc.setComp(st, "chclosed", "(Array Int Bool)", vc.name("cc", "(Array Int Bool)", mkStore(cc, args[0], tTrue)))
 		return nil
@@ -1304,6 +1306,10 @@ func (fr *Frame) checkGuardedOp(st *State, ins ssa.Instruction, addr ssa.Value, 
 		top = top.parent
 	}
 	fresh := app(">", app("base", p), vc.wm(top.old))
+	for _, c := range top.confined {
+		// objects the contract declares not yet shared ("requires confined(x)": construction helpers)
+		fresh = mkOr(fresh, mkEq(p, c))
+	}
 	n := 0
 	for _, b := range fr.fn.Blocks {
 		for _, i2 := range b.Instrs {
